@@ -207,6 +207,8 @@ def fmt_percent(template, args):
             raise Unsupported("% on a symbolic template")
     if all(isinstance(a, (int, str, float)) for a in args):
         return template % args
+    if re.search(r"%[0-9.#+\- ]*[xXofeEgGr]|%[0-9.#+\- ]+[dis]", template):
+        return TS([OpaqueS("formatted text")])        # a rendering whose exact text is irrelevant to terminal effects
     out, pos, k = [], 0, 0
     for m in re.finditer(r"%(.)", template):
         out.append(template[pos:m.start()])
